@@ -238,6 +238,36 @@ def replay_ops_threaded(chk, h, skip, threads):
   return True
 
 
+def threads_fail_while_other_slow(chk):
+  """num_threads = 2, one element raises while the other worker is still busy and the consumer is already waiting:
+  strict mode must surface the error (with its cause), skipping must deliver the slow element - never a hang."""
+  import time
+  from harness import dist
+  from ml_metrics._src.chainables import io, transform
+
+  def fn(x):
+    if x == 0:
+      time.sleep(0.6)
+      return 100
+    time.sleep(0.15)         # the consumer is already waiting on the empty queue
+    raise BadRow('element 1 fails')
+
+  for skip in (False, True):
+    p = transform.TreeTransform.new(num_threads=2).data_source(io.SequenceDataSource([0, 1])).apply(fn=fn)
+    status, val = dist.run_with_deadline(lambda: _run(p, None, skip, source=True), 15)
+    chk.replayed()
+    ctx = dict(kind='threads-fail-while-slow', skip=skip)
+    tag = 'skip' if skip else 'strict'
+    if status != 'ok':
+      chk.violation(f'threads:{tag}:hang-when-one-worker-fails-while-another-is-busy', 'no result within 15s', ctx)
+      continue
+    out, err = val
+    if skip and (err is not None or out != [100]):
+      chk.violation('threads:skip:slow-element-lost', f'delivered {out}, error {_chain(err) if err else None}', ctx)
+    if not skip and (err is None or 'BadRow' not in _chain(err)):
+      chk.violation('threads:strict:error-not-surfaced', f'delivered {out}, error {_chain(err) if err else None}', ctx)
+
+
 def replay_source(chk, h, threads):
   """A data source with failing positions inside a pipeline with error skipping."""
   from ml_metrics._src.chainables import io, transform
@@ -248,15 +278,20 @@ def replay_source(chk, h, threads):
   data = c09.BadSeq(h['len'], bad, sliceable=h.get('sliceable', True))
   if data is None:
     return False
-  ds = io.SequenceDataSource(data, ignore_error=True)
-  p = transform.TreeTransform.new(num_threads=threads).data_source(ds).apply(fn=lambda x: x + 100)
-  out, err = _run(p, None, True, source=True)
-  want = [j + 100 for j in range(h['len']) if j not in bad]
-  ctx = dict(kind='source-skip', history=h, num_threads=threads)
-  if err is not None:
-    chk.violation(f'source:raised:{type(err).__name__}:threads{threads}', f'len={h["len"]} bad={sorted(bad)}: {_chain(err)}', ctx)
-  elif (out != want) if threads <= 1 else (sorted(out) != want):
-    chk.violation(f'source:elements:threads{threads}', f'len={h["len"]} bad={sorted(bad)}: got {out} want {want}', ctx)
+  for ds_skip in (True, False):
+    # ds_skip False: the source itself does not skip; the run-level ignore_error has to (the failing read surfaces
+    # inside the first operator's input map)
+    data = c09.BadSeq(h['len'], bad, sliceable=h.get('sliceable', True))
+    ds = io.SequenceDataSource(data, ignore_error=ds_skip)
+    p = transform.TreeTransform.new(num_threads=threads).data_source(ds).apply(fn=lambda x: x + 100)
+    out, err = _run(p, None, True, source=True)
+    want = [j + 100 for j in range(h['len']) if j not in bad]
+    ctx = dict(kind='source-skip', history=h, num_threads=threads, source_ignore_error=ds_skip)
+    tag = '' if ds_skip else ':run-level-only'
+    if err is not None:
+      chk.violation(f'source:raised:{type(err).__name__}:threads{threads}{tag}', f'len={h["len"]} bad={sorted(bad)}: {_chain(err)}', ctx)
+    elif (out != want) if threads <= 1 else (sorted(out) != want):
+      chk.violation(f'source:elements:threads{threads}{tag}', f'len={h["len"]} bad={sorted(bad)}: got {out} want {want}', ctx)
   return True
 
 
@@ -325,6 +360,7 @@ def body(chk):
         n_src += 1
         chk.replayed()
   chk.count('source_configs', n_src)
+  threads_fail_while_other_slow(chk)
   chk.add_samples([dict(n=h['n'], s=h['s'], k=h['k'], b=h['b'], bad=h['bad']) for h in hs[:2]])
   chk.assumptions += ['skippable errors are ValueError / TypeError (iter_utils._IGNORE_ERROR_TYPES); every failing function call surfaces as ValueError',
                       'batch functions fail iff their batch contains a bad row; rows are ints, row r maps to r + 100']
